@@ -63,6 +63,10 @@ def run_case(case):
                 res.validated += 1
                 if cc.conc_assume_failed:
                     continue
+                if cc.conc_failures:
+                    # the claims were proved for all values on this path: a concrete failure on its witness means the
+                    # encoding and the float execution disagree (or rounding at a boundary)
+                    res.conc_claim_failures.append(dict(model=md, failed=cc.conc_failures[:3]))
                 for k, ev in exp.items():
                     if k in got and not _close(ev, got[k]):
                         res.validation_mismatch.append(dict(obs=k, lifted=ev, concrete=got[k]))
@@ -76,7 +80,7 @@ def run_case(case):
         d = dict(name=name, error="".join(traceback.format_exception(type(ex), ex, ex.__traceback__))[-3000:],
                  paths=0, aborted=0, unsupported=[], queries=0, branch_queries=0, solver_s=0.0, obligations=0,
                  discharged=0, by_label={}, cex=[], unknown=[], samples=[], reach={}, validated=0,
-                 validation_mismatch=[], functions=[])
+                 validation_mismatch=[], functions=[], conc_claim_failures=[])
     d["wall_s"] = time.time() - t0
     d["case"] = case
     return d
@@ -97,7 +101,8 @@ def _child(case, conn):
 def _empty_result(case, error=None, timed_out=False):
     return dict(name=case["name"], error=error, paths=0, aborted=0, unsupported=[], queries=0, branch_queries=0,
                 solver_s=0.0, obligations=0, discharged=0, by_label={}, cex=[], unknown=[], samples=[], reach={},
-                validated=0, validation_mismatch=[], functions=[], wall_s=0.0, case=case, timed_out=timed_out)
+                validated=0, validation_mismatch=[], functions=[], wall_s=0.0, case=case, timed_out=timed_out,
+                conc_claim_failures=[])
 
 
 def _run_pool(cases, jobs, verbose, default_case_timeout):
@@ -277,6 +282,9 @@ def main(argv=None):
         for u in r["unknown"]:
             inconclusive.append(f"{r['name']}:{u['label']} solver unknown ({u.get('reason')})")
         nval = r["validated"]
+        ccf = r.get("conc_claim_failures", [])
+        if ccf and nval and len(ccf) == nval and not r["cex"]:
+            harness_errors.append(f"{r['name']}: claims proved symbolically fail on every concrete witness: {ccf[0]['failed']}")
         if r["validation_mismatch"] and len(r["validation_mismatch"]) * 2 > max(1, nval):
             harness_errors.append(f"{r['name']}: lifted vs concrete mismatch {r['validation_mismatch'][0]}")
         for ci, cx in enumerate(r["cex"]):
